@@ -986,6 +986,22 @@ impl Rig {
                                 .is_ok();
                             a && b
                         }
+                        // the builder route with a body, sent over the wire (what the host verifies is what arrives)
+                        "post" => {
+                            let n = rotate["len"].as_u64().unwrap_or(83) as usize;
+                            let body: Vec<u8> = (0..n).map(|i| ((i * 7 + 3) & 0xff) as u8).collect();
+                            let (guid, key) = match kk.get_current_key_guid_and_value().await {
+                                Ok(Some((g, k))) => (Some(g), Some(k)),
+                                _ => (None, None),
+                            };
+                            let url: hyper::Uri = "http://168.63.129.16:80/machine/?comp=ownpost&n=1".parse().unwrap();
+                            let mut hs = std::collections::HashMap::new();
+                            hs.insert("x-ms-version".to_string(), "2012-11-30".to_string());
+                            match crate::common::hyper_client::build_request(hyper::Method::POST, &url, &hs, Some(&body), guid, key) {
+                                Ok(req) => crate::common::hyper_client::send_request("168.63.129.16", 80, req, |_m| {}).await.is_ok(),
+                                Err(_) => false,
+                            }
+                        }
                         "goalstate" => crate::host_clients::wire_server_client::WireServerClient::new("168.63.129.16", 80, kk)
                             .get_goalstate()
                             .await
